@@ -74,11 +74,13 @@ pub struct Opts {
     pub quasi_in_closure: bool,
     /// procedure bodies and expressions never assign global variables (local assignments stay)
     pub no_global_effects: bool,
+    /// use abs / max / min / quotient, the built-ins a session may rebind to counting wrappers
+    pub wrappable_builtins: bool,
 }
 
 impl Default for Opts {
     fn default() -> Self {
-        Opts { max_depth: 5, callcc: true, output: true, eval: true, quasi: true, quasi_in_closure: true, no_global_effects: false }
+        Opts { max_depth: 5, callcc: true, output: true, eval: true, quasi: true, quasi_in_closure: true, no_global_effects: false, wrappable_builtins: true }
     }
 }
 
@@ -296,8 +298,17 @@ impl<'a> Gen<'a> {
 
     fn int_expr(&mut self, scope: &Scope, depth: usize) -> Cell {
         let d = depth - 1;
-        let choice = self.rng.usize(34);
+        let choice = self.rng.usize(36);
         match choice {
+            // built-ins that neither the prelude nor any other generated form uses: a session may wrap
+            // one of them later (see session()), and code compiled before must then call the wrapper
+            34 | 35 if !self.opts.wrappable_builtins => self.leaf(Ty::Int, scope),
+            34 | 35 => match self.rng.usize(4) {
+                0 => call("abs", vec![self.expr(Ty::Int, scope, d)]),
+                1 => call("max", vec![self.expr(Ty::Int, scope, d), self.expr(Ty::Int, scope, d)]),
+                2 => call("min", vec![self.expr(Ty::Int, scope, d), int(self.rng.range(-5, 5))]),
+                _ => call("quotient", vec![self.expr(Ty::Int, scope, d), int(*self.rng.pick(&[2i64, 3, 7, -4]))]),
+            },
             0 | 1 => self.leaf(Ty::Int, scope),
             2 | 3 => {
                 let op = *self.rng.pick(&["+", "-", "+"]);
@@ -912,6 +923,21 @@ pub fn session(rng: &mut Rng, opts: Opts, with_failures: bool) -> Session {
         };
         forms.push(f);
     }
+    // Late binding of globals: one session in five rebinds a built-in, after some code that calls it was
+    // compiled, to a wrapper that counts its calls; the count is reported by the last form.
+    let rebind = !g.opts.no_global_effects && g.rng.chance(1, 5);
+    if rebind {
+        let b = *g.rng.pick(&["abs", "max", "min", "quotient"]);
+        let at = 1 + g.rng.usize(forms.len());
+        let wrap = crate::engines::c05::parse_forms(&format!(
+            "(define wrapcnt 0) (define old-{b} {b}) (define ({b} . a) (set! wrapcnt (+ wrapcnt 1)) (apply old-{b} a))",
+            b = b
+        ));
+        for (k, w) in wrap.into_iter().enumerate() {
+            forms.insert((at + k).min(forms.len()), w);
+        }
+        g.tag("built-in-rebound-after-use");
+    }
     if with_failures {
         // inject one failing expression into one of the later forms
         let idx = g.rng.usize(forms.len());
@@ -925,6 +951,26 @@ pub fn session(rng: &mut Rng, opts: Opts, with_failures: bool) -> Session {
         }
         // and keep evaluating afterwards
         forms.push(g.expr_form());
+    }
+    if rebind {
+        forms.push(sym("wrapcnt"));
+    }
+    // one session in eight: a parameterless procedure with an internal definition, activated several
+    // times, each activation's closure keeping its own state
+    if g.rng.chance(1, 8) {
+        let u = g.rng.below(1000);
+        let (a, b) = (g.rng.range(-3, 9), g.rng.range(1, 5));
+        let at = g.rng.usize(forms.len() + 1);
+        let snippet = crate::engines::c05::parse_forms(&format!(
+            "(define (mkc{u}) (define n {a}) (lambda () (set! n (+ n {b})) n)) (define ca{u} (mkc{u})) (define cb{u} (mkc{u})) (list (ca{u}) (ca{u}) (cb{u}) (ca{u}) (cb{u}))",
+            u = u,
+            a = a,
+            b = b
+        ));
+        for (k, w) in snippet.into_iter().enumerate() {
+            forms.insert((at + k).min(forms.len()), w);
+        }
+        g.tag("parameterless-procedure-with-internal-state");
     }
     let tags = g.tags.iter().cloned().collect();
     Session { forms, tags }
